@@ -7,9 +7,9 @@ PROPERTY = "C03"
 ASSUMPTIONS = vh_c02.ASSUMPTIONS[:4] + [
     "monitor after every step: while an execution is RUNNING something carries it (a queued or unacknowledged message, a pending request or an armed non-heartbeat timer); no delivery is acknowledged twice; at quiescence unacknowledged_messages, branch_metadata, pending_requests, cancellers, orphaned_responses, broker-side unacked deliveries, timers and queues are all empty",
 ]
-SPLIT = {"par2": [("_none", "not fa and not fb"), ("_a", "fa and not fb"), ("_b", "fb and not fa"), ("_ab", "fa and fb")],
+SPLIT = {"nested_par": [("_ok", "not fail"), ("_fail", "fail")], "par_branch_retry": [("_ok", "not bfail"), ("_fail", "bfail")], "par_inner_catch": [("_ok", "not bfail"), ("_fail", "bfail")], "par2": [("_none", "not fa and not fb"), ("_a", "fa and not fb"), ("_b", "fb and not fa"), ("_ab", "fa and fb")],
          "par_catch": [("_s%d%s" % (s, t), "sib == %d and %s" % (s, c)) for s in range(3)
                        for t, c in (("_ok", "not fa and not fb"), ("_a", "fa and not fb"), ("_b", "fb and not fa"))
                        if not (s != 0 and t == "_b")],
          "map_items": [("_ok", "failing == -1"), ("_fail", "failing >= 0 and n >= 1")]}
-scn.register(globals(), {"C03"}, ["seq_chain", "seq_misc", "two_execs", "par2", "par_pass_task", "par_catch", "par_retry", "map_items"], SPLIT)
+scn.register(globals(), {"C03"}, ["seq_chain", "seq_misc", "two_execs", "par2", "par_pass_task", "par_catch", "par_retry", "map_items", "par_wait_fail", "par_branch_retry", "par_inner_catch", "nested_par", "poison_midrun"], SPLIT)
